@@ -376,4 +376,4 @@ Fixpoint first_bad (fx : fixes) (c : config) (pre : sender) (l : list entry) (k 
   end.
 
 (* the repairs present in /repo today (kept in step with the fix: commits) *)
-Definition current : fixes := mkfx true false false.
+Definition current : fixes := mkfx true true true.
